@@ -10,6 +10,7 @@ for id in $ids; do
   if ! (cd $W && patch -p1 -s < /verif/seeded/$id/patch.diff >/dev/null 2>&1); then echo "$id $prop PATCH-FAILS"; rm -rf $W; continue; fi
   s=$(date +%s)
   out=$(VERIF_REPO=$W timeout 3000 ./check $prop --tier quick 2>&1); rc=$?
-  echo "$id $prop rc=$rc $(( $(date +%s) - s ))s $(echo "$out" | grep -E '^(VIOLATION|INCONCLUSIVE|OK)' | head -1 | cut -c1-100) | $(echo "$out" | grep -E '^  what' | head -1 | cut -c1-160)"
+  mkdir -p /tmp/vmx-logs; echo "$out" > /tmp/vmx-logs/$id.log
+  echo "$id $prop rc=$rc $(( $(date +%s) - s ))s $(echo "$out" | grep -E '^(VIOLATION|INCONCLUSIVE|KNOWN-FINDING|OK)' | sort -r | head -1 | cut -c1-100) | $(echo "$out" | grep -E '^  what' | head -1 | cut -c1-160)"
   rm -rf $W
 done
